@@ -8,7 +8,10 @@ every enumerated input and both smart_factorization settings, whenever parse ret
                                  productions the user supplied for that name; childless <=> the user
                                  supplied the empty production; terminal nodes carry a token value
   yield_is_tokens                leaves left to right == (name, value) of the non-skipped tokens of the
-                                 input (known by construction: the text is rendered from the token list)
+                                 input (known by construction: the text is rendered from the token list, and
+                                 cross-checked against the reference tokenizer c01_gen.spec_tokens written
+                                 from the constructor's documentation: synonyms rename regex groups, keyword
+                                 entries are keyed by the TOKEN name, i.e. the name after synonyms)
   no_helper_symbols              no node name contains '__'
 Sequence templates: a symbol declared with ProdSequence(s1, ..) appears in the raw tree as ONE node whose
 value is the list of the matched element nodes ('<SEQ>__ELEMENT' never appears on the unchanged tree, so
@@ -47,6 +50,9 @@ REQUIRED_REACH = [
     'ambiguous-table-tree',
     'keyword-token-leaf',
     'synonym-token-leaf',
+    'keyword-keyed-by-synonym-name-leaf',
+    'keyword-and-plain-reading-both-derivable',
+    'token-value-is-part-of-token-text',
     'skipped-token-in-input',
     'custom-skip-set',
     'sequence-node',
@@ -306,7 +312,7 @@ def eval_input(parsers, G, start, terminals, finfo, lexname, toks, seps, SEQ=Non
     """parse one input with every accepted setting (caller silences stdout/stderr).
     -> dict(fails, events, diags, status per setting, text)"""
     text = gen.make_text(toks, seps)
-    exp = [(n, v) for n, v in toks]
+    exp = [(t[0], t[1]) for t in toks]          # a token is [name, value] or [name, value, text]
     L = gen.LEXICONS[lexname]
     out = {'fails': [], 'events': set(), 'diags': [], 'status': {}, 'text': text}
     dumps = {}
@@ -373,6 +379,10 @@ def eval_input(parsers, G, start, terminals, finfo, lexname, toks, seps, SEQ=Non
             ev.add('keyword-token-leaf')
         if names & set(L['syn']):
             ev.add('synonym-token-leaf')
+        if names & set(L.get('kwsyn', ())):
+            ev.add('keyword-keyed-by-synonym-name-leaf')
+        if any(len(t) > 2 and t[2] != t[1] for t in toks):
+            ev.add('token-value-is-part-of-token-text')
         if any(gen.has_skipped_token(s) for s in seps):
             ev.add('skipped-token-in-input')
             if 'skip_tokens' in L['kwargs']:
@@ -433,9 +443,17 @@ def explore_grammar(gs, maxlen, inputs_cache):
     if key not in inputs_cache:
         inputs_cache[key] = gen.all_inputs(lex, gs['terms'], maxlen)
     overruns = 0
+    kwsyn = L.get('kwsyn', {})
+    derived = set()         # token-name strings with a keyword-on-synonym token for which a tree was returned
+    derived_plain = set()   # token-name strings for which a tree was returned
     for toks, seps in inputs_cache[key]:
         with quiet():
             o = eval_input(parsers, G, start, terminals, finfo, lex, toks, seps, SEQ)
+        if kwsyn and 'tree' in o['status'].values():
+            w = tuple(t[0] for t in toks)
+            derived_plain.add(w)
+            if any(n in kwsyn for n in w):
+                derived.add(w)
         for smart, st in o['status'].items():
             res['parses'] += 1
             if st == 'tree':
@@ -463,6 +481,11 @@ def explore_grammar(gs, maxlen, inputs_cache):
         if overruns >= 2:
             res['status'] = 'abandoned-after-budget-overruns'
             break
+    # reach: the grammar derives an input with a keyword token AND the same input with that keyword text read
+    # as the plain (synonym-named) token - a tokenizer that reports the wrong one of the two still gets a tree
+    if any(n in kwsyn and w[:i] + (kwsyn[n],) + w[i + 1:] in derived_plain
+           for w in sorted(derived) for i, n in enumerate(w)):
+        hit('keyword-and-plain-reading-both-derivable')
     return res
 
 
@@ -475,8 +498,8 @@ def make_case(gs, toks, seps):
 # the run
 
 def concrete_spec(i, g):
-    fam, prods, start, nterm = g
-    lex = gen.LEX_ORDER[i % len(gen.LEX_ORDER)]
+    fam, prods, start, nterm = g[:4]
+    lex = g[4] if len(g) > 4 else gen.LEX_ORDER[i % len(gen.LEX_ORDER)]
     nameset = (i // len(gen.LEX_ORDER)) % len(gen.NAMESETS)
     none_style = (i // (len(gen.LEX_ORDER) * len(gen.NAMESETS))) % 2 == 0
     cp, cstart, terms = gen.concretize(prods, start, nterm, lex, nameset)
